@@ -27,6 +27,10 @@ CHECKS = {
   text="Property-based testing of the handshake in the simulator world: generated producer/consumer programs (strictly increasing counter, nop padding, fan-out 1..3, fixed per-opcode delays, environment stalls, back-to-back writes) run on bondmachine.VM; after every tick each consumer's captured sequence must be a prefix of the offered sequence and the producer must not move past a write a consumer has not captured. Two genuine defects (D4, D5) are recorded as known findings, recognised by precondition monitors and excluded so search continues behind them. The same machines and invariant are run in the generated-hardware world (files of Bondmachine.Write_verilog under /verif's Verilog interpreter, observation at the processors' _pc/_rN); the hardware shares D4 (recorded as D4h).",
   note="Trusted: observation at the processors (PC leaving i2rw/r2owa, register values), the precondition monitors that classify D4/D4h/D5 (a duplicate is excused only by D4, a loss only by D5), /verif's Verilog interpreter for the hardware world.",
   technique="property-based testing (rapid) with a history invariant checked every tick; known-finding monitors"),
+ "C06": dict(
+  text="Property-based testing of fragment graphs: generated DAGs of integer fragment instances (fan-out, links crossing CP boundaries, register-name clashes, the same fragment collapsed twice) are assembled by the real basm pipeline for several partitions each (finest, coarsest, random, collapse lists in topological order) and simulated; every partition's external outputs must equal the direct evaluation of the dataflow graph by an independent evaluator. One genuine defect class (sync-mode deadlock of some partitions) is recorded as a known finding, predicted by a model of the composer's static IO order and excluded so the search continues.",
+  note="Trusted: the reference evaluator harness/c06/ref.go, the rendezvous model that recognises the recorded deadlock class, the Go simulator for the faithful opcodes used.",
+  technique="property-based testing (rapid): reference-model oracle (dataflow evaluation) + metamorphic relation across partitions"),
  "C08": dict(
   text="Property-based testing of the number library: (a) strings generated from every notation's regular language (plus mutations and a corpus) are run through every matcher: at most one may accept; (b) export/import round-trip on bits, type and width for every supported type and boundary-weighted values, ExportBinaryNBits/ExportVerilogBinary width laws; (c) sized literals import to the stated width or are rejected. Native fuzzing of ImportString in the thorough tier. Found D2 and the sized-hex storage defect (both fixed) and four round-trip defects recorded as known findings.",
   note="Trusted: the deterministic matcher scan in harness/c08 (ImportString's map walk is bypassed), bit-level comparison. Disjointness of the notations is searched, not proved.",
@@ -51,7 +55,6 @@ CHECKS = {
 
 PENDING = {
  "C05": "check under construction (planned: reference interpreter of BASM source vs simulation)",
- "C06": "check under construction (planned: dataflow evaluator vs every partition)",
  "C07": "check under construction (planned: repeated-run byte equality)",
  "C11": "check under construction (planned: save/load round-trip with reflection walk)",
  "C12": "check under construction (planned: Go-subset evaluator vs compiled machine, termination under forced schedules)",
